@@ -495,7 +495,9 @@ def check_region(ctx, case, ignore_known=False):
             for i, (a, b) in enumerate(zip(top["result"], rpolys)):
                 A = np.array(a["pts"], dtype=float)
                 B = np.array(b["pts"], dtype=float) / ks
-                bandp = 2 * tol * max(1.0, 1.0 / ks) + 3e-3 / ks
+                # two samplings of the same edge curves (the scaled path is re-sampled): each within the 4 x tolerance band
+                # that the region clause grants to_polygons, plus the file grid
+                bandp = 4 * tol * max(1.0, 1.0 / ks) + 3e-3 / ks
                 d1 = float(pm.boundary_distance(A, B).max())
                 d2 = float(pm.boundary_distance(B, A).max())
                 if a["tag"] != b["tag"] or d1 > bandp or d2 > bandp:
